@@ -1,3 +1,104 @@
+/-
+C16 — rejected declarations leave no trace.
+
+Every declaration step of the model returns the new state together with its
+outcome; on every failing path the returned state *is* the old state, so every
+later query (symbol lookup, unit lists, parsing, unit arithmetic — all pure
+functions of the state) answers as if the attempt had never been made.
+The model mirrors the order of validation and registration in the code (after
+the `fix:` commit that checks the class registry before creating the
+reference unit); that mirror is what the correspondence check validates after
+*every* step of random histories with ~25 % invalid declarations.
+-/
 import QuantityModel.Model.Quantity
 namespace QM.Props.C16
+open QM
+
+/-- `r` is the outcome of a declaration attempted in state `s`: if it was
+rejected, the state that remains is `s` itself. -/
+def NoTrace (s : RegState) (r : RegState × Except DeclErr Nat) : Prop :=
+  ∀ e, r.2 = .error e → r.1 = s
+
+private theorem noTrace_err (s : RegState) (e : DeclErr) : NoTrace s (s, .error e) := fun _ _ => rfl
+private theorem noTrace_ok (s s' : RegState) (x : Nat) : NoTrace s (s', .ok x) :=
+  fun _ h => by simp at h
+private theorem noTrace_liftMake (s : RegState) (r) : NoTrace s (liftMake s r) := by
+  unfold liftMake; rcases r with _ | ⟨s', uid⟩
+  · exact noTrace_err _ _
+  · exact noTrace_ok _ _ _
+private theorem noTrace_finishClass (s : RegState) (cid nd r) :
+    NoTrace s (finishClass s cid nd r) := by
+  unfold finishClass; rcases r with _ | ⟨s', uid⟩
+  · exact noTrace_err _ _
+  · exact noTrace_ok _ _ _
+
+/-- a rejected unit creation (`new_unit`: symbol not a string / empty /
+already registered, definition of another class, of another or of no
+dimension, of an unsupported kind) leaves the state untouched -/
+theorem newUnit_rejected_no_trace (s : RegState) (c : Nat) (sym : Option String)
+    (d : UnitDefArg) : NoTrace s (s.newUnit c sym d) := by
+  unfold RegState.newUnit
+  repeat' (first | exact noTrace_err _ _ | exact noTrace_ok _ _ _ | exact noTrace_liftMake _ _ | split | dsimp only)
+
+/-- a rejected `derive_unit_from` leaves the state untouched -/
+theorem deriveUnit_rejected_no_trace (s : RegState) (c : Nat) (args : List Nat)
+    (sym : Option String) : NoTrace s (s.deriveUnit c args sym) := by
+  unfold RegState.deriveUnit
+  repeat' (first | exact noTrace_err _ _ | exact noTrace_ok _ _ _ | exact noTrace_liftMake _ _ | split | dsimp only)
+
+/-- a rejected class statement (duplicate dimension, duplicate or empty
+reference symbol, name/quantum without symbol, empty definition) leaves the
+state untouched — in particular no reference unit stays registered. -/
+theorem declClass_rejected_no_trace (s : RegState) (d : ClassDecl) :
+    NoTrace s (s.declClass d) := by
+  unfold RegState.declClass
+  repeat' (first | exact noTrace_err _ _ | exact noTrace_ok _ _ _ | exact noTrace_finishClass _ _ _ _ | split | dsimp only)
+
+/-- Failing unit arithmetic does not touch the operation cache (only
+successes are cached). -/
+def NoTraceQ {α : Type} (s : QState) (r : QState × Except Err α) : Prop :=
+  ∀ e, r.2 = .error e → r.1 = s
+
+private theorem noTraceQ_err {α} (s : QState) (e : Err) :
+    NoTraceQ s (s, (.error e : Except Err α)) := fun _ _ => rfl
+private theorem noTraceQ_ok {α} (s s' : QState) (x : α) : NoTraceQ s (s', .ok x) :=
+  fun _ h => by simp at h
+
+theorem mulUnits_error_no_trace (s : QState) (u v : Nat) : NoTraceQ s (s.mulUnits u v) := by
+  unfold QState.mulUnits
+  repeat' (first | exact noTraceQ_err _ _ | exact noTraceQ_ok _ _ _ | split | dsimp only)
+
+theorem divUnits_error_no_trace (s : QState) (u v : Nat) : NoTraceQ s (s.divUnits u v) := by
+  unfold QState.divUnits
+  repeat' (first | exact noTraceQ_err _ _ | exact noTraceQ_ok _ _ _ | split | dsimp only)
+
+/-- Consequently a rejected symbol stays available: the same declaration
+with a fresh state-independent argument succeeds or fails exactly as it would
+have without the rejected attempt (stated for the unit case). -/
+theorem rejected_then_same_as_never (s : RegState) (c : Nat) (sym : Option String)
+    (d : UnitDefArg) (e : DeclErr) (h : (s.newUnit c sym d).2 = .error e)
+    (c' : Nat) (sym' : Option String) (d' : UnitDefArg) :
+    (s.newUnit c sym d).1.newUnit c' sym' d' = s.newUnit c' sym' d' := by
+  rw [newUnit_rejected_no_trace s c sym d e h]
+
+/-! Non-vacuity: a concrete history with a rejected duplicate-dimension class
+and a rejected duplicate symbol. -/
+def exState : RegState :=
+  let s0 := RegState.init
+  let s1 := (s0.declClass
+    { name := "Length", defineAs := none, refUnitSymbol := some "m", quantum := none }).1
+  (s1.declClass
+    { name := "Area", defineAs := some [(.atom 1, 2)], refUnitSymbol := none, quantum := none }).1
+
+def isErr {ε α} : Except ε α → Bool
+  | .error _ => true
+  | .ok _ => false
+
+def dupArea : ClassDecl :=
+  { name := "Area2", defineAs := some [(.atom 1, 2)], refUnitSymbol := some "sqm", quantum := none }
+example : isErr (exState.declClass dupArea).2 = true := by decide +kernel
+example : isErr (exState.newUnit 1 (some "m") (.qty 1000 0)).2 = true := by decide +kernel
+example : isErr (exState.newUnit 1 (some "km") (.qty 1000 0)).2 = false := by decide +kernel
+example : exState.symMap.map Prod.fst = ["m", "m²"] := by decide +kernel
+
 end QM.Props.C16
